@@ -20,10 +20,20 @@ func (c *Ctx) scope(fn *ssa.Function, depth int, exclude ...*ssa.Function) []*ss
 	var out []*ssa.Function
 	var visit func(f *ssa.Function, d int)
 	visit = func(f *ssa.Function, d int) {
-		if f == nil || seen[f] || ex[f] || f.Blocks == nil || !c.w.inModule(f) {
+		if f == nil || seen[f] || ex[f] || f.Blocks == nil {
 			return
 		}
-		if c.w.pkgPathOf(f) != c.w.pkgPathOf(fn) {
+		// synthetic wrappers (bound method values `x.m`, thunks): look through to the function they call
+		if f.Synthetic != "" {
+			seen[f] = true
+			allInstrs(f, func(i ssa.Instruction) {
+				if cc := callCommon(i); cc != nil {
+					visit(calleeFunc(cc), d)
+				}
+			})
+			return
+		}
+		if !c.w.inModule(f) || c.w.pkgPathOf(f) != c.w.pkgPathOf(fn) {
 			return
 		}
 		seen[f] = true
@@ -37,6 +47,20 @@ func (c *Ctx) scope(fn *ssa.Function, depth int, exclude ...*ssa.Function) []*ss
 		allInstrs(f, func(i ssa.Instruction) {
 			if cc := callCommon(i); cc != nil {
 				visit(calleeFunc(cc), d-1)
+			}
+			// function values passed on (method values handed to db.View, named functions used as callbacks)
+			for _, op := range i.Operands(nil) {
+				if op == nil || *op == nil {
+					continue
+				}
+				switch v := (*op).(type) {
+				case *ssa.Function:
+					visit(v, d-1)
+				case *ssa.MakeClosure:
+					if g, ok := v.Fn.(*ssa.Function); ok {
+						visit(g, d-1)
+					}
+				}
 			}
 		})
 	}
@@ -171,4 +195,45 @@ func argFor(call *ssa.Call, callee *ssa.Function, p ssa.Value) ssa.Value {
 		}
 	}
 	return nil
+}
+
+// liftTo maps an instruction that lives in a helper called (transitively) from anchor to the call instruction in anchor
+// through which it is reached; instructions of anchor itself map to themselves. nil if there is no such call.
+func (c *Ctx) liftTo(ins ssa.Instruction, anchor *ssa.Function) ssa.Instruction {
+	if ins.Parent() == anchor {
+		return ins
+	}
+	var contains func(f *ssa.Function, depth int) bool
+	contains = func(f *ssa.Function, depth int) bool {
+		if f == nil || depth < 0 {
+			return false
+		}
+		if f == ins.Parent() {
+			return true
+		}
+		if f.Blocks == nil || !c.w.inModule(f) {
+			return false
+		}
+		found := false
+		allInstrs(f, func(i ssa.Instruction) {
+			if cc := callCommon(i); cc != nil && !found {
+				if g := calleeFunc(cc); g != nil && g != f && contains(g, depth-1) {
+					found = true
+				}
+			}
+		})
+		return found
+	}
+	var out ssa.Instruction
+	allInstrs(anchor, func(i ssa.Instruction) {
+		if out != nil {
+			return
+		}
+		if cc := callCommon(i); cc != nil {
+			if g := calleeFunc(cc); g != nil && contains(g, 2) {
+				out = i
+			}
+		}
+	})
+	return out
 }
